@@ -593,6 +593,9 @@ pub enum C09Op {
     Update { sel: u16, ts: TimeSpec, g: u32, prefill: Option<Vals> },
     Clone { sel: u16 },
     StartWith { sel: u16, v: Vals },
+    /// start_with the timeline's OWN 0 % values (type default where it has none): a "no-op looking"
+    /// substitution that must still replace an earlier one
+    StartWithOwn { sel: u16 },
     /// update twice in a row on the same target
     Twice { sel: u16, ts: TimeSpec },
 }
@@ -611,6 +614,7 @@ pub fn c09_strategy() -> impl Strategy<Value = C09Case> {
         6 => (any::<u16>(), timespec_strategy(), any::<u32>(), prop::option::weighted(0.5, vals_strategy())).prop_map(|(sel, ts, g, prefill)| C09Op::Update { sel, ts, g, prefill }),
         2 => any::<u16>().prop_map(|sel| C09Op::Clone { sel }),
         2 => (any::<u16>(), vals_strategy()).prop_map(|(sel, v)| C09Op::StartWith { sel, v }),
+        1 => any::<u16>().prop_map(|sel| C09Op::StartWithOwn { sel }),
         1 => (any::<u16>(), timespec_strategy()).prop_map(|(sel, ts)| C09Op::Twice { sel, ts }),
     ];
     (tl_strategy(), prop::collection::vec(op, 1..=30), prop::bool::weighted(0.35)).prop_map(|(tl, ops, wrap)| C09Case { tl, ops, wrap })
@@ -720,9 +724,14 @@ fn c09_run<T: Timeline<Target = P> + Clone>(c: &C09Case, obs: &mut Obs, build: &
                 let st = live[idx].start;
                 live.push(Live { tl: cl, start: st, n_start: 0, last_t: None, src_mutated_after_clone: false, parent: Some(idx) });
             }
-            C09Op::StartWith { sel, v } => {
+            C09Op::StartWith { .. } | C09Op::StartWithOwn { .. } => {
+                let (sel, v) = match op {
+                    C09Op::StartWith { sel, v } => (sel, *v),
+                    C09Op::StartWithOwn { sel } => (sel, own_start_values(&c.tl)),
+                    _ => unreachable!(),
+                };
                 let idx = mv_engine::pick_idx(*sel, live.len());
-                let v = sanitize_vals(*v, back);
+                let v = sanitize_vals(v, back);
                 live[idx].tl.start_with(&P::from_vals(&v));
                 live[idx].start = Some(v);
                 live[idx].n_start += 1;
@@ -762,6 +771,13 @@ pub fn c09(run: &mut Run) {
     crate::fuzzdrv::campaign(run, "fz_c09", 1_200_000);
 }
 
+/// The timeline's own 0 % values: per property the value of its first frame (type default 0 when
+/// the property has no keyframe at 0 % or none at all).
+pub fn own_start_values(tl: &TlDesc) -> Vals {
+    let f = |i: usize| -> f64 { tl.frames(i).first().map(|f| f.value).unwrap_or(0.0) };
+    Vals { a: f(0) as f32, b: f(1) as f32, c: f(2) as i32, d: f(3) as u8 }
+}
+
 // =============================================================================================
 // C10: start_with only affects the first forward pass
 
@@ -779,6 +795,18 @@ pub struct C10Case {
 pub fn c10_strategy() -> impl Strategy<Value = C10Case> {
     (tl_strategy(), prop::collection::vec(tl_strategy(), 0..=1), prop_oneof![3 => Just(vec![]), 2 => prop::collection::vec(vals_strategy(), 1..=2)], vals_strategy(), prop::collection::vec(timespec_strategy(), 16)).prop_map(|(tl, others, earlier, v, times)| {
         let back = tl.uses_back() || others.iter().any(|o| o.uses_back());
+        // now and then the final start value is the timeline's own 0 % value for some properties
+        // (after a different earlier one): the substitution must still replace the earlier one
+        let mut v = v;
+        if !earlier.is_empty() && (v.d % 3 == 0) {
+            let own = own_start_values(&tl);
+            v.a = own.a;
+            v.c = own.c;
+            if v.d % 2 == 0 {
+                v.b = own.b;
+                v.d = own.d;
+            }
+        }
         C10Case { tl, others, earlier: earlier.into_iter().map(|e| sanitize_vals(e, back)).collect(), v: sanitize_vals(v, back), times }
     })
 }
@@ -1069,6 +1097,22 @@ pub fn c12_strategy() -> impl Strategy<Value = C12Case> {
                     t.timing.cycle = c;
                 }
             }
+            // now and then two components get almost (but not exactly) the same timing: totals that
+            // differ by a few ulps or by a fraction of a millisecond
+            if tls.len() >= 2 && perm[0] % 5 == 0 {
+                let base = tls[0].timing;
+                let k = (perm[1] % 7) as i32 - 3;
+                let mut t = base;
+                match perm[2] % 3 {
+                    0 => t.cycle = mv_model::step32(base.cycle, k * 50),
+                    1 => t.delay = if base.delay == 0.0 { 0.0003 * (k.abs() + 1) as f32 } else { mv_model::step32(base.delay, k * 50) },
+                    _ => t.cycle = base.cycle + 0.0004 * k as f32,
+                }
+                if t.cycle > 0.0 {
+                    let last = tls.len() - 1;
+                    tls[last].timing = t;
+                }
+            }
             if disjoint {
                 // make the property sets pairwise disjoint
                 let mut used = 0u8;
@@ -1146,6 +1190,38 @@ pub fn c12_judge(c: &C12Case, obs: &mut Obs) -> Result<(), String> {
     let want_cycle = if all_same_cycle { Some(timings[0].cycle) } else { None };
     if merged.cycle_duration().map(|x| x.to_bits()) != want_cycle.map(|x| x.to_bits()) {
         return Err(format!("merged.cycle_duration() = {:?}, expected {:?} (component cycles {:?})", merged.cycle_duration(), want_cycle, timings.iter().map(|t| t.cycle).collect::<Vec<_>>()));
+    }
+    // --- nesting: a merged timeline of merged timelines behaves like the flat one
+    if n >= 2 {
+        let cut = 1 + (c.perm[3] as usize % (n - 1));
+        let mk = |range: std::ops::Range<usize>| {
+            let mut m = MergedTimeline::of(comps[range].iter().cloned());
+            if let Some(v) = &c.start {
+                m.start_with(&P::from_vals(v));
+            }
+            m
+        };
+        let nested = MergedTimeline::of([mk(0..cut), mk(cut..n)]);
+        if nested.delay().to_bits() != merged.delay().to_bits() || nested.duration().to_bits() != merged.duration().to_bits() || nested.repeat() != merged.repeat() {
+            return Err(format!("nesting [0..{cut}] + [{cut}..{n}] changes the aggregate metadata: delay {:?}/{:?}, duration {:?}/{:?}, repeat {:?}/{:?}", nested.delay(), merged.delay(), nested.duration(), merged.duration(), nested.repeat(), merged.repeat()));
+        }
+        if nested.cycle_duration().map(|x| x.to_bits()) != merged.cycle_duration().map(|x| x.to_bits()) {
+            return Err(format!("nesting [0..{cut}] + [{cut}..{n}] changes cycle_duration(): {:?} vs flat {:?} (component cycles {:?})", nested.cycle_duration(), merged.cycle_duration(), c.tls.iter().map(|t| t.timing.cycle).collect::<Vec<_>>()));
+        }
+        // the other grouping direction: [[a], [b, c, ...]] vs [[a, b, ...], [z]] must agree as well
+        let nested2 = MergedTimeline::of([mk(0..n - 1), mk(n - 1..n)]);
+        if nested2.cycle_duration().map(|x| x.to_bits()) != merged.cycle_duration().map(|x| x.to_bits()) {
+            return Err(format!("nesting [0..{}] + [last] changes cycle_duration(): {:?} vs flat {:?}", n - 1, nested2.cycle_duration(), merged.cycle_duration()));
+        }
+        for ts in c.times.iter().take(4) {
+            let t = ts.resolve(&c.tls[0]);
+            let (mut x, mut y) = (sentinel(19), sentinel(19));
+            nested.update(&mut x, t);
+            merged.update(&mut y, t);
+            if x.bits() != y.bits() {
+                return Err(format!("nested merged timeline differs from the flat one at t={t:?}: {:?} vs {:?}", x, y));
+            }
+        }
     }
     // --- wrapping a single timeline changes nothing about it
     if n == 1 {
